@@ -15,6 +15,8 @@ from __future__ import annotations
 
 import hashlib
 import json
+import threading
+from concurrent.futures import ThreadPoolExecutor
 from typing import Any
 
 from . import core
@@ -61,10 +63,42 @@ def is_extra(u: dict) -> bool:
     return u["disc"]["mode"] == "multi" or any("rnul" in v["f"] for v in u["vars"])
 
 
+_LOCK = threading.Lock()
+
+
+class _Sub:
+    """Thread-safe stand-in for chk.scratch in run_tlc (which only calls .sub()): independent TLC runs are started
+    concurrently with a share of the cores each."""
+
+    def __init__(self, chk: Check):
+        self.chk = chk
+
+    def sub(self, name: str):  # noqa: ANN201
+        with _LOCK:
+            return self.chk.scratch.sub(name)
+
+
+def designs(chk: Check, specs: list[tuple[str, str, int, int, bool]]) -> dict[str, list[dict]]:
+    """specs: (key, family, lo, hi, extra).  The exhaustive design runs are independent: run concurrently, account in order."""
+    w = max(2, core.NCPU // max(1, min(3, len(specs))))
+
+    def one(sp):  # noqa: ANN001, ANN202
+        key, family, lo, hi, extra = sp
+        return run_tlc(_Sub(chk), "MC_Union", mc_cfg(family, lo, hi, extra), coverage=True, workers=w, timeout=1800, heap="4g")
+
+    with ThreadPoolExecutor(max_workers=3) as ex:
+        rs = list(ex.map(one, specs))
+    return {sp[0]: design_account(chk, sp[1], sp[2], sp[3], sp[4], r) for sp, r in zip(specs, rs)}
+
+
 def design(chk: Check, family: str, lo: int, hi: int, extra: bool = False) -> list[dict]:
     """extra: the run additionally emits the 2-variant unions of the "extra" family (required-nullable fields,
     non-injective discriminator mappings) - callers split them off with is_extra()."""
-    r = run_tlc(chk.scratch, "MC_Union", mc_cfg(family, lo, hi, extra), coverage=True, workers=16, timeout=900)
+    r = run_tlc(chk.scratch, "MC_Union", mc_cfg(family, lo, hi, extra), coverage=True, workers=8, timeout=900)
+    return design_account(chk, family, lo, hi, extra, r)
+
+
+def design_account(chk: Check, family: str, lo: int, hi: int, extra: bool, r: Any) -> list[dict]:
     tag = f"MC_Union[{family}{'+extra' if extra else ''},{lo}..{hi}]"
     chk.add_tlc(tag, r)
     chk.require(r.coverage.get("Emit", (0, 0))[1] > 0, f"vacuous design run: Emit never taken in {tag}")
@@ -110,29 +144,38 @@ def judge(chk: Check, traces: list[dict], label: str, via: str) -> None:
     if not traces:
         return
     by_id = {t["id"]: t for t in traces}
-    # chunks of at most ~60k observations per monitor run (TLC holds the whole trace file in memory)
+    # chunks of at most ~40k observations per monitor run (TLC holds the whole trace file in memory)
     chunks: list[list[dict]] = [[]]
     nobs = 0
     for t in traces:
-        if nobs + len(t["obs"]) > 60000 and chunks[-1]:
+        if nobs + len(t["obs"]) > 40000 and chunks[-1]:
             chunks.append([])
             nobs = 0
         chunks[-1].append(t)
         nobs += len(t["obs"])
-    verdicts = []
-    for i, chunk in enumerate(chunks):
-        d = chk.scratch.sub("union_traces")
+    # The monitor is evaluated per trace, so chunks are independent: they run as concurrent TLC processes with few
+    # workers each (measured: one 16-worker TLC is slower than a 4-worker one on this kind of batch, and -coverage
+    # doubles the monitor's run time - vacuity of the monitor is guarded by "one verdict per trace" and the n_* counters).
+    def one(arg: tuple[int, list[dict]]) -> tuple[int, Any]:
+        i, chunk = arg
+        with _LOCK:
+            d = chk.scratch.sub("union_traces")
         tf = d / "traces.ndjson"
         with tf.open("w") as f:
             for t in chunk:
                 f.write(json.dumps({k: v for k, v in t.items() if not k.startswith("_")}) + "\n")
-        r = run_tlc(chk.scratch, "Trace_Union", "SPECIFICATION Spec\nCHECK_DEADLOCK FALSE\n", workers=16, env={"TRACE_FILE": str(tf)}, coverage=True, timeout=1800)
-        chk.add_tlc(f"Trace_Union[{label},{i}]", r)
-        chk.require(r.coverage.get("Judge1", (0, 0))[1] > 0, f"vacuous monitor run for {label}")
-        vs = r.printed.get("VERDICT", [])
-        chk.require(len(vs) == len(chunk), f"monitor produced {len(vs)} verdicts for {len(chunk)} traces")
-        verdicts += vs
+        r = run_tlc(_Sub(chk), "Trace_Union", "SPECIFICATION Spec\nCHECK_DEADLOCK FALSE\n", workers=max(2, core.NCPU // max(1, min(3, len(chunks)))), env={"TRACE_FILE": str(tf)}, timeout=1800, heap="4g")
         tf.unlink()
+        return i, r
+
+    verdicts = []
+    with ThreadPoolExecutor(max_workers=3) as ex:
+        results = sorted(ex.map(one, list(enumerate(chunks))), key=lambda x: x[0])
+    for i, r in results:
+        chk.add_tlc(f"Trace_Union[{label},{i}]", r)
+        vs = r.printed.get("VERDICT", [])
+        chk.require(len(vs) == len(chunks[i]), f"monitor produced {len(vs)} verdicts for {len(chunks[i])} traces")
+        verdicts += vs
     ndrift = 0
     for v in verdicts:
         t = by_id[v["id"]]
@@ -417,20 +460,17 @@ def run(chk: Check) -> None:
     ]
     fams: dict[str, list[dict]] = {}
     if thorough:
-        fams["disc"] = design(chk, "disc", 2, 3)
-        fams["extra"] = design(chk, "extra", 2, 3)
+        got = designs(chk, [("disc", "disc", 2, 3, False), ("extra", "extra", 2, 3, False), ("mixed", "mixed", 2, 3, False), ("obj", "obj", 2, 3, False),
+                            ("obj2x4", "obj2", 4, 4, False), ("mixed4", "mixed", 4, 4, False), ("disc4", "disc", 4, 4, False)])
+        fams.update(got)
     else:
-        both = design(chk, "disc", 2, 3, extra=True)  # one TLC run: discriminator family + the 2-variant "extra" unions
-        fams["disc"] = [d for d in both if not is_extra(d["u"])]
-        fams["extra"] = [d for d in both if is_extra(d["u"])]
+        # the discriminator run also emits the 2-variant "extra" unions (one JVM less)
+        got = designs(chk, [("both", "disc", 2, 3, True), ("mixed", "mixed", 2, 3, False), ("obj", "obj", 2, 3, False)])
+        fams["disc"] = [d for d in got["both"] if not is_extra(d["u"])]
+        fams["extra"] = [d for d in got["both"] if is_extra(d["u"])]
+        fams["mixed"], fams["obj"] = got["mixed"], got["obj"]
     chk.require(any(d["u"]["disc"]["mode"] == "multi" for d in fams["extra"]) and any(d["u"]["disc"]["mode"] == "none" for d in fams["extra"]),
                 "extra family lacks non-injective mappings or required-nullable variants")
-    fams["mixed"] = design(chk, "mixed", 2, 3)
-    fams["obj"] = design(chk, "obj", 2, 3)
-    if thorough:
-        fams["obj2x4"] = design(chk, "obj2", 4, 4)
-        fams["mixed4"] = design(chk, "mixed", 4, 4)
-        fams["disc4"] = design(chk, "disc", 4, 4)
     rel = chk.cov["design_counterexample_relation"]
     chk.require(any(k.startswith("C14.lossy") and '"relation": "subset"' in k for k in rel), "design check vacuous: the modelled algorithm shows no subset-swallowing counterexample")
     chk.require(not any(k.split(" ")[0] in ("C14.unmapped_guess", "C14.retry_after_mapped_failure", "C14.wrong_variant_with_discriminator") for k in rel),
